@@ -231,6 +231,10 @@ func jsonText(c *DecCase, module string) (string, bool) {
 		return "[]", true
 	case "arrnum":
 		return "[1]", true
+	case "arrnullnull":
+		return "[null,null]", true
+	case "arrnullnum":
+		return "[null,1]", true
 	case "obj":
 		return "{}", true
 	}
@@ -359,14 +363,21 @@ func runDec(c *DecCase, cp *conc.Corpus, pkg *reg.Pkg, res *rep.Result) {
 			return
 		}
 		inputText = fmt.Sprint(tv)
-		attempts = append(attempts, attempt{"SetNode", func(root ygot.GoStruct) error {
-			sch := st[reflectName(root)]
-			var val interface{} = tv
-			if tv == nil {
-				val = (*gpb.TypedValue)(nil)
-			}
-			return ytypes.SetNode(sch, root, path, val, &ytypes.InitMissingElements{})
-		}})
+		if c.Mode == "tvtol" {
+			attempts = append(attempts, attempt{"SetNode(tolerant)", func(root ygot.GoStruct) error {
+				sch := st[reflectName(root)]
+				return ytypes.SetNode(sch, root, path, tv, &ytypes.InitMissingElements{}, &ytypes.TolerateJSONInconsistencies{})
+			}})
+		} else {
+			attempts = append(attempts, attempt{"SetNode", func(root ygot.GoStruct) error {
+				sch := st[reflectName(root)]
+				var val interface{} = tv
+				if tv == nil {
+					val = (*gpb.TypedValue)(nil)
+				}
+				return ytypes.SetNode(sch, root, path, val, &ytypes.InitMissingElements{})
+			}})
+		}
 	}
 	strIn := ""
 	if c.K == "str" || c.K == "string_val" {
@@ -483,6 +494,8 @@ func keyValues(cp *conc.Corpus, t, v string) []string {
 		return map[string][]string{"UINT": {"int32:-5", "int32:0", "int32:2147483647"}, "USTR": {"str:abc", "str:zz"}}[v]
 	case "u-eu":
 		return map[string][]string{"UENUM": {"enum:E1", "enum:E2"}, "UUINT": {"uint32:9", "uint32:0", "uint32:4294967295"}}[v]
+	case "u-bs":
+		return map[string][]string{"UBOOL": {"bool:true", "bool:false"}, "USTRBOOLISH": {"str:True", "str:1", "str:t", "str:FALSE", "str:0", "str:abc"}}[v]
 	}
 	return nil
 }
